@@ -41,8 +41,11 @@ def Mon.step (m : Mon) : Ev → Mon
 
 def mon (tr : List Ev) : Mon := tr.foldl Mon.step {}
 
-theorem mon_snoc (tr : List Ev) (e : Ev) : mon (tr ++ [e]) = (mon tr).step e := by
+theorem mon_append (tr l : List Ev) : mon (tr ++ l) = l.foldl Mon.step (mon tr) := by
   simp [mon, List.foldl_append]
+
+theorem mon_snoc (tr : List Ev) (e : Ev) : mon (tr ++ [e]) = (mon tr).step e := by
+  simp [mon_append]
 
 /-- coupling between the automaton after `tr` and the model state components -/
 structure C (err : Bool) (tr : List Ev) (kbuf : List Byte) (peerShut : Bool) (nAlloc : Nat)
@@ -67,7 +70,7 @@ theorem coupled_doOp (b : Bool) (s : St) (op : CbOp) (h : Coupled b s) : Coupled
   cases op <;> cases b <;>
     simp only [doOp, readStop, readStart, closeH, emit, UV_EINVAL, UV_EALREADY, UV_ENOTCONN] <;>
     (repeat' split) <;>
-    (constructor <;> simp_all [mon_snoc, Mon.step])
+    (constructor <;> simp_all [mon_append, Mon.step])
 
 theorem coupled_runOps (b : Bool) (ops : List CbOp) : ∀ (s : St), Coupled b s → Coupled b (runOps s ops) := by
   induction ops with
@@ -75,43 +78,78 @@ theorem coupled_runOps (b : Bool) (ops : List CbOp) : ∀ (s : St), Coupled b s 
   | cons o t ih => intro s h; exact ih _ (coupled_doOp b s o h)
 
 
-theorem kread_spec (kbuf : List Byte) (shut : Bool) (cap : Nat) (o : Option Outcome) :
-    match (kread kbuf shut cap o).1 with
-    | .data bs => bs ≠ [] ∧ bs ++ (kread kbuf shut cap o).2 = kbuf ∧ bs.length ≤ cap
-    | .eof => kbuf = [] ∧ shut = true ∧ (kread kbuf shut cap o).2 = kbuf
-    | .eagain => (kread kbuf shut cap o).2 = kbuf
-    | .err e => e ≠ 0 ∧ (kread kbuf shut cap o).2 = kbuf := by
-  have full : ∀ k : Nat,
-      match (if min k (min cap kbuf.length) = 0 then
-              (if kbuf.isEmpty && shut then (RRes.eof, kbuf) else (RRes.eagain, kbuf))
-             else (RRes.data (kbuf.take (min k (min cap kbuf.length))), kbuf.drop (min k (min cap kbuf.length)))).1 with
-      | .data bs => bs ≠ [] ∧ bs ++ (if min k (min cap kbuf.length) = 0 then
-              (if kbuf.isEmpty && shut then (RRes.eof, kbuf) else (RRes.eagain, kbuf))
-             else (RRes.data (kbuf.take (min k (min cap kbuf.length))), kbuf.drop (min k (min cap kbuf.length)))).2 = kbuf ∧ bs.length ≤ cap
-      | .eof => kbuf = [] ∧ shut = true ∧ (if min k (min cap kbuf.length) = 0 then
-              (if kbuf.isEmpty && shut then (RRes.eof, kbuf) else (RRes.eagain, kbuf))
-             else (RRes.data (kbuf.take (min k (min cap kbuf.length))), kbuf.drop (min k (min cap kbuf.length)))).2 = kbuf
-      | .eagain => (if min k (min cap kbuf.length) = 0 then
-              (if kbuf.isEmpty && shut then (RRes.eof, kbuf) else (RRes.eagain, kbuf))
-             else (RRes.data (kbuf.take (min k (min cap kbuf.length))), kbuf.drop (min k (min cap kbuf.length)))).2 = kbuf
-      | .err e => e ≠ 0 ∧ True := by
-    intro k
-    by_cases h0 : min k (min cap kbuf.length) = 0
-    · by_cases h1 : (kbuf.isEmpty && shut) = true
-      · simp only [h0, h1, if_true]; simp at h1; exact ⟨List.isEmpty_iff.mp h1.1, h1.2, rfl⟩
-      · simp only [h0, h1, if_true]; simp
-    · simp only [h0, if_false]
-      refine ⟨?_, List.take_append_drop _ _, ?_⟩
-      · intro hc; have := congrArg List.length hc; simp at this; omega
-      · simp; omega
+/-- what the kernel model guarantees about one read result -/
+def KOk (kbuf : List Byte) (shut : Bool) (cap : Nat) (r : RRes × List Byte) : Prop :=
+  match r.1 with
+  | .data bs => bs ≠ [] ∧ bs ++ r.2 = kbuf ∧ bs.length ≤ cap
+  | .eof => kbuf = [] ∧ shut = true ∧ r.2 = kbuf
+  | .eagain => r.2 = kbuf
+  | .err e => e ≠ 0 ∧ r.2 = kbuf
+
+theorem kfull_ok (kbuf : List Byte) (shut : Bool) (cap k : Nat) : KOk kbuf shut cap (kfull kbuf shut cap k) := by
+  unfold kfull
+  by_cases h0 : min k (min cap kbuf.length) = 0
+  · by_cases h1 : (kbuf.isEmpty && shut) = true
+    · simp only [h0, h1, if_true, KOk]; simp at h1; simp [h1]
+    · simp only [h0, h1, if_true, KOk]; simp
+  · simp only [h0, if_false, KOk]
+    refine ⟨?_, List.take_append_drop _ _, ?_⟩
+    · intro hc
+      have h2 := congrArg List.length hc
+      rw [List.length_take] at h2
+      simp only [List.length_nil] at h2
+      omega
+    · rw [List.length_take]; omega
+
+theorem kread_ok (kbuf : List Byte) (shut : Bool) (cap : Nat) (o : Option Outcome) :
+    KOk kbuf shut cap (kread kbuf shut cap o) := by
   unfold kread
   cases o with
-  | none => simpa using full cap
+  | none => exact kfull_ok _ _ _ _
   | some o =>
     cases o with
-    | ok k => simpa using full k
-    | eagain => simp
-    | eintr => simp
-    | err e => by_cases he : e = 11 ∨ e = 4 ∨ e = 0 <;> simp [he]; omega
+    | ok k => exact kfull_ok _ _ _ _
+    | eagain => simp [KOk]
+    | eintr => simp [KOk]
+    | err e => by_cases he : e = 11 ∨ e = 4 ∨ e = 0 <;> simp [he, KOk]; omega
+
+
+theorem coupled_callReadCb (u : User) (b : Bool) (s : St) (n : Int) (buf : Option Nat) (bytes : List Byte)
+    (h : Coupled b (emit { s with nCb := s.nCb + 1 } (.readCb n buf bytes))) :
+    Coupled b (callReadCb u s n buf bytes) := by
+  unfold callReadCb
+  exact coupled_runOps b _ _ h
+
+theorem coupled_readRound (u : User) (s : St) (h : Coupled false s) (hr : s.reading = true) :
+    Coupled false (readRound u s).1 := by
+  obtain ⟨h1, h2, h3, h4, h5, h6, h7, h8⟩ := h
+  simp only [Bool.false_eq_true, if_false] at h8
+  unfold readRound
+  by_cases hz : u.allocS s.nAlloc = 0
+  · simp only [hz, if_true]
+    apply coupled_callReadCb
+    constructor <;> simp_all [emit, mon_append, Mon.step, quieting, UV_ENOBUFS]
+  · simp only [hz, if_false]
+    have hk := kread_ok s.kbuf s.peerShut (u.allocS s.nAlloc) (skipEintr s.oracle).2.1
+    revert hk
+    generalize kread s.kbuf s.peerShut (u.allocS s.nAlloc) (skipEintr s.oracle).2.1 = kr
+    obtain ⟨r, kb⟩ := kr
+    intro hk
+    cases r with
+    | eagain =>
+      simp only [KOk] at hk
+      simp only [emit]
+      apply coupled_callReadCb
+      split <;> (constructor <;> simp_all [emit, mon_append, Mon.step, quieting, UV_ENOBUFS])
+    | err e =>
+      simp only [KOk] at hk
+      simp only [emit]
+      sorry
+    | eof =>
+      simp only [KOk] at hk
+      sorry
+    | data bs =>
+      simp only [KOk] at hk
+      sorry
 
 end UvModel.StreamR
